@@ -75,7 +75,7 @@ func (fc *FaucetSmartContract) setSC(sc *smartcontractinterface.SmartContract, _
 	fc.SmartContractExecutionStats["token refills"] = metrics.GetOrRegisterHistogram(fmt.Sprintf("sc:%v:func:%v", fc.ID, "token refills"), nil, metrics.NewUniformSample(1024))
 }
 
-func (un *UserNode) validPourRequest(t *transaction.Transaction, balances c_state.StateContextI, gn *GlobalNode) (bool, error) {
+func (un *UserNode) validPourRequest(t *transaction.Transaction, balances c_state.StateContextI, gn *GlobalNode, pourAmount currency.Coin) (bool, error) {
 	smartContractBalance, err := balances.GetClientBalance(gn.ID)
 	if err == util.ErrValueNotPresent {
 		logging.Logger.Error("faucet sc state was not initialized", zap.String("ID", gn.ID))
@@ -84,13 +84,13 @@ func (un *UserNode) validPourRequest(t *transaction.Transaction, balances c_stat
 	if err != nil {
 		return false, common.NewError("invalid_request", fmt.Sprintf("getting faucet balance resulted in an error: %v", err.Error()))
 	}
-	if gn.PourAmount > smartContractBalance {
+	if pourAmount > smartContractBalance {
 		return false, common.NewError("invalid_request", fmt.Sprintf("amount asked to be poured (%v) exceeds contract's wallet ballance (%v)", t.Value, smartContractBalance))
 	}
 
-	totalAmount, err := currency.AddCoin(gn.PourAmount, un.Used)
+	totalAmount, err := currency.AddCoin(pourAmount, un.Used)
 	if err != nil {
-		return false, common.NewError("invalid_request", fmt.Sprintf("amount asked to be poured (%v) plus previous amount (%v) is not a valid currency. error: %v", gn.PourAmount, un.Used, err))
+		return false, common.NewError("invalid_request", fmt.Sprintf("amount asked to be poured (%v) plus previous amount (%v) is not a valid currency. error: %v", pourAmount, un.Used, err))
 	}
 	if totalAmount > gn.PeriodicLimit {
 		return false, common.NewError("invalid_request",
@@ -98,9 +98,9 @@ func (un *UserNode) validPourRequest(t *transaction.Transaction, balances c_stat
 				t.Value, un.Used, gn.PeriodicLimit, gn.IndividualReset.String()))
 	}
 
-	totalGAmount, err := currency.AddCoin(gn.PourAmount, gn.Used)
+	totalGAmount, err := currency.AddCoin(pourAmount, gn.Used)
 	if err != nil {
-		return false, common.NewError("invalid_request", fmt.Sprintf("amount asked to be poured (%v) plus global used amount (%v) is not a valid currency. error: %v", gn.PourAmount, gn.Used, err))
+		return false, common.NewError("invalid_request", fmt.Sprintf("amount asked to be poured (%v) plus global used amount (%v) is not a valid currency. error: %v", pourAmount, gn.Used, err))
 	}
 	if totalGAmount > gn.GlobalLimit {
 		return false, common.NewError("invalid_request",
@@ -160,12 +160,14 @@ func (fc *FaucetSmartContract) pour(t *transaction.Transaction, _ []byte, balanc
 		return "", err
 	}
 
-	ok, err := user.validPourRequest(t, balances, gn)
+	// the amount that will actually be transferred is the one checked against
+	// the faucet balance and the periodic / global limits
+	var pourAmount = gn.PourAmount
+	if t.Value > 0 && t.Value < gn.MaxPourAmount {
+		pourAmount = t.Value
+	}
+	ok, err := user.validPourRequest(t, balances, gn, pourAmount)
 	if ok {
-		var pourAmount = gn.PourAmount
-		if t.Value > 0 && t.Value < gn.MaxPourAmount {
-			pourAmount = t.Value
-		}
 		tokensPoured := fc.SmartContractExecutionStats["tokens Poured"].(metrics.Histogram)
 		transfer := state.NewTransfer(t.ToClientID, t.ClientID, pourAmount)
 		if err := balances.AddTransfer(transfer); err != nil {
